@@ -8,6 +8,7 @@ import (
 	"crypto/x509/pkix"
 	"encoding/asn1"
 	"math/big"
+	"net"
 	"time"
 	"encoding/pem"
 	"io/ioutil"
@@ -75,6 +76,49 @@ func cliFixtures(args []string) error {
 		ioutil.WriteFile(filepath.Join(dir, "p256-sctleaf-cert2.pem"), append(pem.EncodeToMemory(&pem.Block{Type: "CERTIFICATE", Bytes: der}), pem.EncodeToMemory(&pem.Block{Type: "CERTIFICATE", Bytes: ca.certs[0].Raw})...), 0600)
 		info["p256-sctleaf-leaf"] = ints(der)
 		info["p256-sctleaf-ca"] = ints(ca.certs[0].Raw)
+	}
+	// network fixtures (only when the check has a loopback server): leaves that name an OCSP responder there, and a TLS
+	// server certificate for 127.0.0.1 that a tool process can be told to trust (SSL_CERT_FILE)
+	if len(args) > 1 && args[1] != "" {
+		base := args[1]
+		long := ""
+		for i := 0; i < 200; i++ {
+			long += "r"
+		}
+		for name, responder := range map[string]string{"p256-ocspleaf": base + "/ocsp", "p256-ocsplong": base + "/ocsp/" + long} {
+			key, err := ecdsa.GenerateKey(elliptic.P256(), crandReader())
+			if err != nil {
+				return err
+			}
+			tmpl := &x509.Certificate{SerialNumber: big.NewInt(515151), Subject: pkix.Name{CommonName: "verif ocsp leaf"}, NotBefore: time.Unix(946684800, 0), NotAfter: time.Unix(4102444800, 0),
+				DNSNames: []string{"example.com"}, KeyUsage: x509.KeyUsageDigitalSignature, OCSPServer: []string{responder}}
+			der, err := x509.CreateCertificate(crandReader(), tmpl, tmpl, &key.PublicKey, key)
+			if err != nil {
+				return err
+			}
+			ca := newKeyCert("p256", []string{"ca.example"}, 11)
+			ioutil.WriteFile(filepath.Join(dir, name+"-cert2.pem"), append(pem.EncodeToMemory(&pem.Block{Type: "CERTIFICATE", Bytes: der}), pem.EncodeToMemory(&pem.Block{Type: "CERTIFICATE", Bytes: ca.certs[0].Raw})...), 0600)
+			info[name+"-leaf"] = ints(der)
+			info[name+"-ca"] = ints(ca.certs[0].Raw)
+			info[name+"-responder"] = ints([]byte(responder))
+		}
+		key, err := ecdsa.GenerateKey(elliptic.P256(), crandReader())
+		if err != nil {
+			return err
+		}
+		tmpl := &x509.Certificate{SerialNumber: big.NewInt(616161), Subject: pkix.Name{CommonName: "verif loopback tls"}, NotBefore: time.Unix(946684800, 0), NotAfter: time.Unix(4102444800, 0),
+			DNSNames: []string{"localhost"}, IPAddresses: []net.IP{net.IPv4(127, 0, 0, 1)}, KeyUsage: x509.KeyUsageDigitalSignature | x509.KeyUsageCertSign,
+			ExtKeyUsage: []x509.ExtKeyUsage{x509.ExtKeyUsageServerAuth}, IsCA: true, BasicConstraintsValid: true}
+		der, err := x509.CreateCertificate(crandReader(), tmpl, tmpl, &key.PublicKey, key)
+		if err != nil {
+			return err
+		}
+		writePEM(filepath.Join(dir, "tls-cert.pem"), "CERTIFICATE", der)
+		kd, err := x509.MarshalPKCS8PrivateKey(key)
+		if err != nil {
+			return err
+		}
+		writePEM(filepath.Join(dir, "tls-key.pem"), "PRIVATE KEY", kd)
 	}
 	pub, priv, _ := ed25519.GenerateKey(crandReader())
 	p8, err := x509.MarshalPKCS8PrivateKey(priv)
